@@ -150,6 +150,18 @@ Definition cas_path (dir name : str) : str := path_of dir (cas_rel name).
 Definition cas_name_ok (name : str) : bool :=
   negb (is_nil name) && forallb (fun c => negb (c =? slash) && negb (c =? dot)) name.
 
+(* ---------- blob names: core.ParseSHA256Digest (core/digest.go:72-94) + ValidateSHA256 (:159):
+   non-empty, exactly one ':', algo "sha256", 64 hex digits (hex.DecodeString takes both cases);
+   the CAS factory is then given the hex part (Digest.Hex()) *)
+Definition colon : N := 58.
+Definition sha256_lit : str := [115; 104; 97; 50; 53; 54].
+Definition parse_digest (raw : str) : option str :=
+  match split_on colon raw with
+  | [algo; h] =>
+      if str_eqb algo sha256_lit && (N.of_nat (length h) =? 64) && forallb ishex h then Some h else None
+  | _ => None
+  end.
+
 (* ---------- containment *)
 
 (* lexical "root/rel" for an already cleaned root *)
